@@ -108,6 +108,9 @@ def _case(draw, ctx):
             ci, op = ft_child, "sub"
         ch = children[ci]
         name = f"s{si}"
+        if pending and draw(st.integers(0, 5)) == 0:
+            # an instance whose name extends the name of an instance still waiting to be filled
+            name = f"{pending[draw(st.integers(0, len(pending) - 1))][0]}.i{si}"
         ins = [x[0] for x in ch["nodes"] if x[1] == "input"]
         outs = [x[0] for x in ch["nodes"] if x[3] and x[1] != "input"]
         conns = {}
@@ -242,7 +245,10 @@ def check(case, ctx):
                     raise Violation("bb|attrs", f"{where}: node {n!r} attributes changed")
             continue
         # functional checks for sub / fill
-        ren = (lambda n: n.replace(f"{name}.", f"{name}_", 1) if n.startswith(f"{name}.") else n) if op == "fill" else (lambda n: n)
+        # on fill only the pins of the filled instance are renamed <inst>.<pin> -> <inst>_<pin>; other nodes that
+        # merely start with "<inst>." (pins of an instance called <inst>.<x>, escaped names) keep their names
+        fill_pins = {f"{name}.{p_}": f"{name}_{p_}" for p_ in (set(ch.inputs()) | set(ch.outputs()))} if op == "fill" else {}
+        ren = lambda n: fill_pins.get(n, n)  # noqa: E731
         for n in before_nodes:
             if ren(n) not in g.nodes:
                 raise Violation(f"{op}|node_lost", f"{where}: pre-existing node {n!r} disappeared")
